@@ -24,7 +24,11 @@ fn ip_from(v: &Value) -> IpAddr {
     if b[0] == 4 {
         IpAddr::V4(Ipv4Addr::new(b[1], b[2], b[3], b[4]))
     } else {
-        IpAddr::V6(Ipv6Addr::new(0, 0, 0, 0, 0, 0, 0, b[1] as u16))
+        {
+            let mut o = [0u8; 16];
+            o.copy_from_slice(&b[1..17]);
+            IpAddr::V6(Ipv6Addr::from(o))
+        }
     }
 }
 fn ip_json(ip: &IpAddr) -> Value {
@@ -34,7 +38,11 @@ fn ip_json(ip: &IpAddr) -> Value {
             v.extend(a.octets());
             bytes_json(&v)
         }
-        IpAddr::V6(a) => json!([6, a.octets()[15]]),
+        IpAddr::V6(a) => {
+            let mut v = vec![6u8];
+            v.extend(a.octets());
+            bytes_json(&v)
+        }
     }
 }
 fn name_text(v: &Value) -> String {
